@@ -116,6 +116,15 @@ Proof.
   set (p := 2 ^ N.log2 n) in *. clearbody p. lia.
 Qed.
 
+(* init(r) applied to a reserved size r = 2^d - 1 reserves exactly r *)
+Lemma rsz_for_pow2m1 : forall d, 0 < d -> rsz_for (2 ^ d - 1) = 2 ^ d - 1.
+Proof.
+  intros d Hd. unfold rsz_for.
+  replace (2 ^ d - 1) with (N.pred (2 ^ d)) by apply N.pred_sub.
+  rewrite N.log2_pred_pow2 by exact Hd.
+  replace (N.pred d + 1) with d by lia. symmetry. apply N.pred_sub.
+Qed.
+
 (* ---- (a) CO_Tree::init(n)   CO_Tree.cc:608 ---- *)
 Definition init (n : N) : M tree unit :=
   put empty_tree ;;;
@@ -405,6 +414,19 @@ Proof.
   intros n. unfold iter_reserved. fold (rsz_for n).
   pose proof (rsz_for_nonzero n) as H.
   destruct (is_greater_than_ratio n (rsz_for n) max_density_percent && negb (N.eqb (rsz_for n) 3)); lia.
+Qed.
+
+Lemma rsz_for_iter_reserved : forall n, rsz_for (iter_reserved n) = iter_reserved n.
+Proof.
+  intros n. unfold iter_reserved. cbv zeta.
+  set (d := N.log2 n + 1).
+  assert (Hd : 0 < d) by (unfold d; lia).
+  destruct (is_greater_than_ratio n (2 ^ d - 1) max_density_percent && negb (N.eqb (2 ^ d - 1) 3)).
+  - assert (E : (2 ^ d - 1) * 2 + 1 = 2 ^ (d + 1) - 1).
+    { rewrite N.pow_add_r. assert (2 ^ d <> 0) by (apply N.pow_nonzero; discriminate).
+      change (2 ^ 1) with 2. set (p := 2 ^ d) in *. clearbody p. lia. }
+    rewrite E. apply rsz_for_pow2m1. lia.
+  - apply rsz_for_pow2m1. exact Hd.
 Qed.
 
 (* ---------- (a) init : theorem ---------- *)
@@ -769,7 +791,8 @@ Lemma copy_elems_owned_sat : forall ps s1 h1 X,
   tree_inv s1 -> elems s1 = [] -> rsz s1 <> 0 ->
   Lg (owned_tree s1 ++ X) h1 ->
   sat (copy_elems ps s1 h1)
-      (fun _ s2 h2 => tree_inv s2 /\ Lg (owned_tree s2 ++ X) h2)
+      (fun _ s2 h2 => tree_inv s2 /\ map fst (elems s2) = rev (map fst ps) /\
+                      rsz s2 = rsz s1 /\ Lg (owned_tree s2 ++ X) h2)
       (fun s2 h2 => Lg (owned_tree s2 ++ X) h2).
 Proof.
   intros ps s1 h1 X I He Hnz HL1.
@@ -778,8 +801,10 @@ Proof.
     rewrite He. cbn [elems_blks flat_map app].
     unfold owned_tree in HL1. rewrite He in HL1. cbn [elems_blks flat_map] in HL1.
     rewrite app_nil_r in HL1. exact HL1.
-  - cbn beta. intros _ s2 h2 [F [_ HL2]]. split.
+  - cbn beta. intros _ s2 h2 [F [Hp HL2]]. split; [|split; [|split]].
     + eapply tree_inv_frame; eassumption.
+    + rewrite Hp, He. cbn [map]. apply app_nil_r.
+    + apply F.
     + eapply Lg_perm; [exact HL2|]. rewrite <- (frame_blks_eq _ _ F). apply owned_perm.
   - cbn beta. intros s2 h2 [F HL2].
     eapply Lg_perm; [exact HL2|]. rewrite <- (frame_blks_eq _ _ F). apply owned_perm.
@@ -808,17 +833,21 @@ Lemma copy_data_from_sat : forall used s h X,
   tree_inv s -> elems s = [] -> (used <> [] -> rsz s <> 0) ->
   Lg (owned_tree s ++ X) h ->
   sat (copy_data_from used s h)
-      (fun _ s' h' => tree_inv s' /\ Lg (owned_tree s' ++ X) h')
+      (fun _ s' h' => tree_inv s' /\ Permutation (map fst (elems s')) (map fst used) /\
+                      rsz s' = rsz s /\ Lg (owned_tree s' ++ X) h')
       (fun s' h' => s' = empty_tree /\ Lg X h').
 Proof.
   intros used s h X I He Hnz HL. unfold copy_data_from.
   destruct used as [|u used'].
-  - cbn. auto.
+  - cbn [ret sat]. rewrite He. cbn [map]. auto.
   - set (us := u :: used') in *.
     assert (Hr : rsz s <> 0) by (apply Hnz; discriminate).
     eapply sat_try.
     + apply copy_elems_owned_sat; eassumption.
-    + cbn beta. intros a s' h' H; exact H.
+    + cbn beta. intros a s' h' [I' [Hp [Hr' HL']]].
+      split; [exact I'|]. split; [|split; assumption].
+      rewrite Hp. rewrite map_rev, rev_involutive.
+      apply Permutation_map. apply sort_by_perm.
     + cbn beta. intros s2 h2 HL2. rewrite bind_get.
       eapply sat_bind.
       * eapply release_sat; [apply elems_blks_rev_sort | exact HL2].
@@ -840,14 +869,16 @@ Lemma init_then_copy_sat : forall rszy used s h X,
   (used <> [] -> rszy <> 0) ->
   Lg X h ->
   sat ((init rszy ;;; copy_data_from used) s h)
-      (fun _ s' h' => tree_inv s' /\ Lg (owned_tree s' ++ X) h')
+      (fun _ s' h' => tree_inv s' /\ Permutation (map fst (elems s')) (map fst used) /\
+                      rsz s' = (if N.eqb rszy 0 then 0 else rsz_for rszy) /\
+                      Lg (owned_tree s' ++ X) h')
       (fun s' h' => s' = empty_tree /\ Lg X h').
 Proof.
   intros rszy used s h X Hy HL.
   eapply sat_bind.
   - apply init_sat; exact HL.
   - cbn beta. intros s' h' H; exact H.
-  - cbn beta. intros _ s1 h1 [I [He [Hr HL1]]].
+  - cbn beta. intros _ s1 h1 [I [He [Hr HL1]]]. rewrite <- Hr.
     apply copy_data_from_sat; try assumption.
     intros Hu. rewrite Hr. specialize (Hy Hu).
     destruct (N.eqb_spec rszy 0) as [E|E]; [contradiction|]. apply rsz_for_nonzero.
@@ -858,20 +889,24 @@ Theorem cotree_copy_ctor_unwind_balanced : forall rszy used k h,
   match copy_ctor rszy used tt (arm k h) with
   | Ret t _ h' => wf h' /\ ledger_eq (live h') (owned_tree t ++ live h)
                   /\ tree_inv t /\ NoDup (map fst (owned_tree t))
+                  /\ Permutation (map fst (elems t)) (map fst used)
+                  /\ rsz t = (if N.eqb rszy 0 then 0 else rsz_for rszy)
   | Exn _ h' => wf h' /\ ledger_eq (live h') (live h)
   | Bad _ => False
   end.
 Proof.
   intros rszy used k h W Hy.
   assert (H : sat (copy_ctor rszy used tt (arm k h))
-                  (fun t _ h' => tree_inv t /\ Lg (owned_tree t ++ live h) h')
+                  (fun t _ h' => tree_inv t /\ Permutation (map fst (elems t)) (map fst used) /\
+                                 rsz t = (if N.eqb rszy 0 then 0 else rsz_for rszy) /\
+                                 Lg (owned_tree t ++ live h) h')
                   (fun _ h' => Lg (live h) h')).
   { unfold copy_ctor. eapply sat_construct.
     - apply init_then_copy_sat; [exact Hy|]. apply Lg_arm. apply Lg_self. exact W.
     - cbn beta. intros _ s' h' H; exact H.
     - cbn beta. intros s' h' [_ H]; exact H. }
   destruct (copy_ctor rszy used tt (arm k h)) as [t u h'|u h'|h']; cbn [sat] in H.
-  - destruct H as [I HL]. apply Lg_out in HL. tauto.
+  - destruct H as [I [Hp [Hr HL]]]. apply Lg_out in HL. tauto.
   - exact H.
   - exact H.
 Qed.
@@ -887,20 +922,24 @@ Theorem cotree_assign_unwind_balanced : forall rszy used t k h X,
   match assign rszy used t (arm k h) with
   | Ret _ t' h' => wf h' /\ ledger_eq (live h') (owned_tree t' ++ X)
                    /\ tree_inv t' /\ NoDup (map fst (owned_tree t'))
+                   /\ Permutation (map fst (elems t')) (map fst used)
+                   /\ rsz t' = (if N.eqb rszy 0 then 0 else rsz_for rszy)
   | Exn t' h' => wf h' /\ ledger_eq (live h') X /\ t' = empty_tree
   | Bad _ => False
   end.
 Proof.
   intros rszy used t k h X W I P Hy.
   assert (H : sat (assign rszy used t (arm k h))
-                  (fun _ t' h' => tree_inv t' /\ Lg (owned_tree t' ++ X) h')
+                  (fun _ t' h' => tree_inv t' /\ Permutation (map fst (elems t')) (map fst used) /\
+                                  rsz t' = (if N.eqb rszy 0 then 0 else rsz_for rszy) /\
+                                  Lg (owned_tree t' ++ X) h')
                   (fun t' h' => t' = empty_tree /\ Lg X h')).
   { unfold assign. eapply sat_bind.
     - apply destroy_sat; [exact I|]. apply Lg_arm. split; [exact W | exact P].
     - intros ? ? F; contradiction.
     - cbn beta. intros _ s1 h1 [_ HL1]. apply init_then_copy_sat; assumption. }
   destruct (assign rszy used t (arm k h)) as [a t' h'|t' h'|h']; cbn [sat] in H.
-  - destruct H as [I' HL]. apply Lg_out in HL. tauto.
+  - destruct H as [I' [Hp [Hr HL]]]. apply Lg_out in HL. tauto.
   - destruct H as [-> [W' P']]. auto.
   - exact H.
 Qed.
@@ -1914,3 +1953,59 @@ Example ex_tr_pip_unguarded_leaks :
   tr_pip_copy false [(LGmp, 8)] [(LNew, 64)] [(LNew, 64)] 3 =
   (false, [EvAlloc LGmp 8; EvAlloc LNew 64; EvFail LNew 64; EvFree LGmp 8], 1, 0).
 Proof. vm_compute. reflexivity. Qed.
+
+(* ---------- sanity of the position computation (BOUNDED check only; the
+   positions are not observable in the allocation trace and no theorem above
+   depends on them): for n = 1..300 the in-order fill yields n strictly
+   ascending dfs positions within 1..reserved ---------- *)
+Fixpoint ascending_from (lo : N) (l : list N) : bool :=
+  match l with
+  | [] => true
+  | x :: l' => N.ltb lo x && ascending_from x l'
+  end.
+
+Definition fill_ok (n : N) : bool :=
+  let r := iter_reserved n in
+  let ps := fill_positions n r in
+  N.eqb (N.of_nat (length ps)) n && ascending_from 0 ps && N.leb (last ps 0) r.
+
+Example fill_positions_ok_upto_300 :
+  forallb fill_ok (map N.of_nat (seq 1 300)) = true.
+Proof. vm_compute. reflexivity. Qed.
+
+Lemma reqs_iter_eq : forall src,
+  reqs_iter src =
+  let r := iter_reserved (N.of_nat (length src)) in
+  (LNew, sz_dim * (r + 2)) :: (LNew, sz_coeff * (r + 1))
+  :: map (fun lb => (LGmp, limb_bytes lb)) src.
+Proof. intros src. unfold reqs_iter. rewrite rsz_for_iter_reserved. reflexivity. Qed.
+
+(* ---------- (b) destroy / ~CO_Tree: releases exactly the owned blocks, never
+   throws, never frees a block twice or through the wrong layer ---------- *)
+Theorem cotree_destroy_balanced : forall t k h X,
+  wf h -> tree_inv t -> ledger_eq (live h) (owned_tree t ++ X) ->
+  match destroy t (arm k h) with
+  | Ret _ t' h' => wf h' /\ ledger_eq (live h') X /\ t' = t
+  | Exn _ _ => False
+  | Bad _ => False
+  end.
+Proof.
+  intros t k h X W I P.
+  pose proof (destroy_sat t (arm k h) X I (Lg_arm k _ _ (conj W P))) as H.
+  destruct (destroy t (arm k h)) as [a t' h'|t' h'|h']; cbn [sat] in H.
+  - destruct H as [-> [W' P']]. auto.
+  - exact H.
+  - exact H.
+Qed.
+
+Example cotree_destroy_hyp_sat :
+  wf empty_heap /\ tree_inv empty_tree /\
+  ledger_eq (live empty_heap) (owned_tree empty_tree ++ []).
+Proof. exact cotree_rebuild_bigger_hyp_sat. Qed.
+
+(* the only hypothesis of cotree_iter_ctor_unwind_partial and
+   cotree_iter_ctor_fixed_unwind_balanced is [wf h] *)
+Example cotree_iter_ctor_unwind_partial_hyp_sat : wf empty_heap.
+Proof. exact wf_empty. Qed.
+Example cotree_iter_ctor_fixed_hyp_sat : wf empty_heap.
+Proof. exact wf_empty. Qed.
